@@ -12,7 +12,9 @@ import (
 	"math"
 	"math/rand"
 	"os"
+	"os/exec"
 	"regexp"
+	"runtime/debug"
 	"sort"
 	"strconv"
 	"strings"
@@ -37,6 +39,10 @@ func main() {
 		silenceStdout()
 		explore(os.Args[2:])
 		os.Exit(0)
+	}
+	if len(os.Args) >= 3 && os.Args[1] == "-child" {
+		childProbe(os.Args[2])
+		return
 	}
 	env := FromFlags("c02")
 	out := silenceStdout()
@@ -67,7 +73,7 @@ func silenceStdout() *os.File {
 const walkJS = `(function(){
   var seen = [], out = [];
   var fn = function(a, b){ return a; };
-  var queue = [[this, 'this'], [fn, '%fn'], [fn.bind(null), '%bound'], [(function(){ return arguments; })(1, 2), '%arguments']];
+  var queue = [[this, 'this'], [fn, '%fn'], [fn.bind(null), '%bound'], [(function(){ return arguments; })(1, 2), '%arguments'], [new Error('e'), '%error'], [(function(){ try { null.x } catch (e) { return e } })(), '%thrown']];
   while (queue.length) {
     var it = queue.shift(), o = it[0], path = it[1];
     if (o === null || (typeof o !== 'object' && typeof o !== 'function')) continue;
@@ -121,6 +127,10 @@ func pathExpr(p string) string {
 		root, p = "(function(a, b){ return a; })", strings.TrimPrefix(p, "%fn")
 	case strings.HasPrefix(p, "%bound"):
 		root, p = "(function(a, b){ return a; }).bind(null)", strings.TrimPrefix(p, "%bound")
+	case strings.HasPrefix(p, "%error"):
+		root, p = "new Error('e')", strings.TrimPrefix(p, "%error")
+	case strings.HasPrefix(p, "%thrown"):
+		root, p = "(function(){ try { null.x } catch (e) { return e } })()", strings.TrimPrefix(p, "%thrown")
 	case strings.HasPrefix(p, "%arguments"):
 		root, p = "(function(){ return arguments; })(1, 2)", strings.TrimPrefix(p, "%arguments")
 	}
@@ -737,8 +747,10 @@ func runJobs(jobs []*callJob) {
 	wg.Wait()
 	// a watchdog expiry under a loaded machine is not a hang: such calls are run
 	// again, one at a time, with a limit that only a real hang exceeds
+	retried := 0
 	for _, j := range jobs {
-		if j.ob.class == classHang {
+		if j.ob.class == classHang && retried < 3 { // a handful is enough to tell load from a wedge
+			retried++
 			watchLimit = 90 * time.Second
 			j.ob, j.txt = j.spec.run()
 			watchLimit = 4 * time.Second
@@ -769,6 +781,7 @@ func runC02(env *Env) {
 	env.Extra["calls_with_go_panic_or_hang"] = escaped
 
 	accessorCases(env)
+	childCases(env)
 	payloadCases(env)
 	stackCases(env)
 	sourceCases(env, budget*2/10)
@@ -1289,6 +1302,11 @@ func oneSource(entry int, src string) observed {
 }
 
 var pinnedSources = []string{
+	`RegExp.prototype.exec("a")`,
+	`"abc".replace(RegExp.prototype, "x")`,
+	`Object.isFrozen(Object.preventExtensions(new String("\ufffd")))`,
+	`Object.keys(Object.assign({}, new String("a\ufffdb")))`,
+	`function f(){ a: { for(;;) { continue a; } } } typeof f()`,
 	`new Function("}),(function(){")`,
 	`new Function("a", "}),(function(){")`,
 	"new (Math.max.bind(null))(1)",
@@ -1337,6 +1355,18 @@ func sourceCases(env *Env, n int) {
 	for _, steps := range rollbackHistories() {
 		jobs = append(jobs, &sj{entry: 9, src: strings.Join(steps, " ;; "), steps: steps, bucket: "history-rollback"})
 	}
+	for _, ps := range positionSources() {
+		jobs = append(jobs, &sj{entry: 0, src: ps, bucket: "src-positions"})
+	}
+	for _, ps := range protoAsInstanceSources(inventory()) {
+		jobs = append(jobs, &sj{entry: 0, src: ps, bucket: "src-proto-instance"})
+	}
+	for _, steps := range reentrantAccessorHistories() {
+		jobs = append(jobs, &sj{entry: 9, src: strings.Join(steps, " ;; "), steps: steps, bucket: "history-reentrant-accessor"})
+	}
+	for _, steps := range inheritedAccessorHistories() {
+		jobs = append(jobs, &sj{entry: 9, src: strings.Join(steps, " ;; "), steps: steps, bucket: "history-inherited-accessor"})
+	}
 	for _, steps := range atRestHistories() {
 		jobs = append(jobs, &sj{entry: 9, src: strings.Join(steps, " ;; "), steps: steps, bucket: "history-atrest"})
 	}
@@ -1368,7 +1398,7 @@ func sourceCases(env *Env, n int) {
 		jobs = append(jobs, &sj{entry: 10, src: strings.Join(ops, " ;; "), steps: ops, bucket: "history-goapi-regexp"})
 	}
 	skipped := 0
-	for target := len(jobs) + n - 2700; len(jobs) < target; {
+	for target := len(jobs) + n - 3000; len(jobs) < target; {
 		src, how := mutate(r, Pick(r, corpus))
 		if r.Intn(3) == 0 {
 			src, _ = mutate(r, src+" ")
@@ -1392,9 +1422,11 @@ func sourceCases(env *Env, n int) {
 		}(j)
 	}
 	wg.Wait()
+	retried := 0
 	for _, j := range jobs {
-		if j.ob.class == classHang { // see runJobs
-			srcLimit = 120 * time.Second
+		if j.ob.class == classHang && retried < 3 { // see runJobs
+			retried++
+			srcLimit = 60 * time.Second
 			j.ob = runSourceJob(j.entry, j.src, j.steps)
 			srcLimit = 8 * time.Second
 		}
@@ -2737,6 +2769,165 @@ func labelSources() []entrySrc {
 			entrySrc{0, "function g(){ return eval(" + JSStr(Units("a: "+b+" 5")) + ") } typeof g()"},
 			entrySrc{0, "var o = {get v(){ a: " + b + " return 7 }}; typeof o.v"},
 			entrySrc{0, "[1, 2].map(function(){ a: " + b + " return 7 }).join()"})
+	}
+	return out
+}
+
+// ---------------------------------------------------------------------------
+// probes whose failure mode is fatal for the process (a Go stack overflow cannot
+// be recovered): run in a child process, the exit is the observation
+
+var childProbes = []string{"export-cycle-object", "export-cycle-array", "export-deep-acyclic"}
+
+func childProbe(which string) {
+	debug.SetMaxStack(64 << 20) // die early instead of eating a gigabyte
+	vm := otto.New()
+	src := map[string]string{
+		"export-cycle-object": `var a = {}; a.a = a; a`,
+		"export-cycle-array":  `var a = [1]; a[1] = [a]; a`,
+		"export-deep-acyclic": `var a = {}, b = a; for (var i = 0; i < 200; i++) { b.n = {}; b = b.n } a`,
+	}[which]
+	v, err := vm.Run(src)
+	if err != nil {
+		os.Exit(3)
+	}
+	o := Guard(func() (otto.Value, error) { _, e := v.Export(); return otto.Value{}, e })
+	switch {
+	case o.Panic != nil:
+		os.Exit(9)
+	case o.Err != nil:
+		os.Exit(6)
+	}
+	os.Exit(0)
+}
+
+func childCases(env *Env) {
+	for id, which := range childProbes {
+		cmd := exec.Command(os.Args[0], "-child", which)
+		done := make(chan error, 1)
+		go func() { done <- cmd.Run() }()
+		obs, info := int64(0), "returned a value"
+		select {
+		case err := <-done:
+			if err != nil {
+				code := -1
+				var ee *exec.ExitError
+				if errors.As(err, &ee) {
+					code = ee.ExitCode()
+				}
+				switch code {
+				case 6:
+					obs, info = 6, "returned an error"
+				case 9:
+					obs, info = 9, "GO PANIC escaped Export"
+				default:
+					obs, info = 14, fmt.Sprintf("THE PROCESS DIED (exit %d: fatal error, not recoverable)", code)
+				}
+			}
+		case <-time.After(120 * time.Second):
+			_ = cmd.Process.Kill()
+			obs, info = 10, "no return within 120s"
+		}
+		env.Add(fmt.Sprintf("CChild %d %d", id, obs), fmt.Sprintf("child process: Value.Export in probe %s -> %s", which, info), "child", true)
+	}
+}
+
+// ---------------------------------------------------------------------------
+// non-ASCII receivers and positions between their length in UTF-16 units, in
+// runes and in UTF-8 bytes, for every String (and RegExp) function that takes one
+
+func positionSources() []string {
+	recvs := []string{`"é"`, `"uñiçode"`, `"a𐀀b"`, `"日本語"`, `"éé"`, `"\ufffd€x"`, `new String("ñandú")`, `"𐀀𐀁"`}
+	calls := []string{
+		`s.indexOf(T, p)`, `s.lastIndexOf(T, p)`, `s.slice(p)`, `s.slice(p, p + 1)`, `s.slice(-p)`, `s.substring(p)`, `s.substring(p, q)`, `s.substr(p)`, `s.substr(p, 2)`, `s.substr(-p, q)`,
+		`s.charAt(p)`, `s.charCodeAt(p)`, `s.split(T, p)`, `s.split("", p)`, `s[p]`, `s.concat(s).indexOf(T, p + s.length)`,
+		`r.lastIndex = p; r.exec(s)`, `r.lastIndex = p; r.test(s)`, `r.lastIndex = p; s.replace(r, "-")`, `r.lastIndex = p; s.match(r)`, `Array.prototype.slice.call(s, p).length`, `Array.prototype.indexOf.call(s, T, p)`,
+		`Array.prototype.lastIndexOf.call(s, T, p)`, `s.localeCompare(s.slice(p))`, `s.toUpperCase().indexOf(T.toUpperCase(), p)`, `s.trim().lastIndexOf(T, p)`,
+	}
+	var out []string
+	for _, rc := range recvs {
+		for _, c := range calls {
+			// T runs over a character of the receiver, the empty string and a stranger; p and q over every
+			// position from -2 to two past the UTF-8 byte length (which is the largest of the three lengths)
+			out = append(out, `var s = `+rc+`, S = String(s), n = unescape(encodeURIComponent(S)).length + 2, out = 0; `+
+				`for (var ti = 0; ti < 3; ti++) { var T = [S.charAt(S.length - 1), "", "z"][ti], r = new RegExp(T || "(?:)", "g"); `+
+				`for (var p = -2; p <= n; p++) for (var q = p; q <= p + 1; q++) { var x = `+c+`; out += x === undefined ? 0 : 1 } } out`)
+		}
+	}
+	return out
+}
+
+// every prototype object used as an instance of its own class
+func protoAsInstanceSources(paths []string) []string {
+	var out []string
+	for _, p := range paths {
+		i := strings.Index(p, ".prototype.")
+		if i < 0 || strings.HasPrefix(p, "%") || strings.Contains(p, "<") {
+			continue
+		}
+		if strings.HasPrefix(p, "RegExp.prototype.exec") || strings.HasPrefix(p, "RegExp.prototype.test") {
+			continue // finding C02-regexp-prototype-instance (pinned sources)
+		}
+		proto := p[:i+len(".prototype")]
+		out = append(out, p+"()", p+`("a", 1)`, proto+"."+p[i+len(".prototype."):]+".call("+proto+", 0, 1)",
+			"Object.create("+proto+")."+p[i+len(".prototype."):]+"(1)")
+	}
+	return out
+}
+
+// ---------------------------------------------------------------------------
+// global accessors (own, inherited, on the copy) whose getter / setter goes back
+// into the host API, reached through every host entry point: nothing may wedge
+
+func reentrantAccessorHistories() [][]string {
+	inner := []string{`__get("plain")`, `__set("plain", 2)`, `__run("plain + 1")`, `__eval("plain")`, `__call("helper", 1)`, `__get("acc2")`, `__set("acc2", 3)`, `__get("nothing")`}
+	var out [][]string
+	for ii, in := range inner {
+		setup := `reentrant: var plain = 1; function helper(x) { return x } ` +
+			`Object.defineProperty(this, "acc", {get: function () { return ` + in + ` }, set: function (v) { ` + in + ` }, configurable: true}); ` +
+			`Object.defineProperty(this, "acc2", {get: function () { return 5 }, set: function (v) { }, configurable: true}); ` +
+			`Object.defineProperty(Object.prototype, "inh", {get: function () { return ` + in + ` }, set: function (v) { ` + in + ` }, configurable: true}); typeof acc`
+		for _, outer := range []string{"go:getset acc", "go:getset inh", "acc", "acc = 1", "inh", "this.inh = 2", "go:objectget this acc", "go:objectget this inh", "go:call helper", "go:callsrc acc", "go:eval acc + inh",
+			"go:copy acc + inh", "go:export this.acc", "__get('acc')", "__set('acc', 1)", "__get('inh')", "go:valuecall helper", "go:settings", "go:copyswitch"} {
+			steps := []string{setup, outer, "go:getset acc", "go:getset plain", "acc"}
+			if ii%2 == 0 {
+				steps = append(steps, "go:copyswitch", "go:getset acc", "go:getset inh", "inh = 1")
+			}
+			out = append(out, steps)
+		}
+	}
+	return out
+}
+
+// ---------------------------------------------------------------------------
+// built-in accessors (Error stack, function caller) read through objects that
+// only inherit them, or with the getter detached and given another receiver
+
+func inheritedAccessorHistories() [][]string {
+	makers := []string{
+		`new Error("e")`, `new TypeError("t")`, `(function () { try { null.x } catch (e) { return e } })()`, `(function () { try { undefinedName } catch (e) { return e } })()`,
+		`(function () { try { new Array(-1) } catch (e) { return e } })()`, `(function () { try { eval("(") } catch (e) { return e } })()`, `Error("called")`,
+	}
+	reads := []string{
+		`Object.create(E).stack`, `function Sub() {} Sub.prototype = E; new Sub().stack`, `function Sub2() {} Sub2.prototype = Object.create(E); String(new Sub2().stack).length`,
+		`var g = Object.getOwnPropertyDescriptor(E, "stack").get; typeof g.call(E)`, `g.call(5)`, `g.call(undefined)`, `g.call(null)`, `g.call({})`, `g.call("s")`, `g.call(new Error("other"))`, `g.call(Object.create(E))`, `g()`,
+		`g.apply([], [])`, `g.bind(1)()`, `var o = {}; Object.defineProperty(o, "stack", Object.getOwnPropertyDescriptor(E, "stack")); o.stack`, `Object.create(Object.create(E)).stack`,
+		`var arr = []; arr.__proto__ = E; arr.stack`, `E.stack = 1; E.stack`, `Object.create(E).stack = 2`, `JSON.stringify(Object.create(E))`, `String(Object.create(E))`, `Object.create(E).toString()`,
+		`go:export Object.create(E)`, `go:objectget E stack`, `go:copy Object.create(E).stack`, `go:copyswitch`, `Object.create(E).stack`, `g.call(E)`,
+		`var c = Object.getOwnPropertyDescriptor(function () {}, "caller").get; typeof c.call(function () {})`, `c.call(5)`, `c.call(undefined)`, `c.call({})`, `c()`, `c.call(Math.abs)`, `Object.create(function () {}).caller`,
+		`function Fn() {} Fn.prototype = function () {}; new Fn().caller`, `(function () { return Object.create(arguments.callee).caller })()`, `Object.create((function () { return arguments })()).callee`,
+	}
+	var out [][]string
+	for _, m := range makers {
+		out = append(out, append([]string{"inherited: var E = " + m + "; typeof E"}, reads...))
+		// and each read on its own runtime
+		for _, r := range reads[:22] {
+			pre := "typeof E"
+			if strings.HasPrefix(r, "g") || strings.Contains(r, "g.call") {
+				pre = `var g = Object.getOwnPropertyDescriptor(E, "stack").get; typeof g`
+			}
+			out = append(out, []string{"inherited: var E = " + m + "; typeof E", pre, r})
+		}
 	}
 	return out
 }
